@@ -944,7 +944,10 @@ RULE = ('cases = (generated option set: 2-9 long names with shared prefixes and 
         'unique prefixes down to the shortest, --no-n, -a v, -av, -a, grouped flags with an optional valued alias, positional tokens, unknown tokens, "--" + rest) '
         'run through parseCommandLine (argv rewrite observed) / parseCommandArray / parseCommandString (random bare, single and double quoting with backslash escapes) / '
         'parseCfgFile (blanks, comments, blank lines, continuation lines); error streams: unknown option, ambiguous prefix, missing value, value for a flag, unmapped '
-        'positional, malformed config line; plus a token soup stream without intent (correspondence only). 35 % of all streams run over a context that was put '
+        'positional, malformed config line; a stream that puts the SAME key string under different lookup modes next to each other within one parse (short option -c next to the '
+        'long option spelled with the one-letter key --c, both orders, with and without values, another token in between / the same mode twice as controls; the alias character is the '
+        'first letter, the unique prefix or the exact one-letter name of ANOTHER option, an ambiguous prefix, or a prefix of nothing; allowUnreg on and off): every token must resolve '
+        'as it would alone; plus a token soup stream without intent (correspondence only). 35 % of all streams run over a context that was put '
         'together in steps with 1-3 adds the context must REFUSE in between (DuplicateOption caught, the caller carries on and adds the remaining options; clash by '
         'long name (with or without an unused alias), by alias with a FRESH long name, by both; 0-2 further options behind the clashing one; fresh names from a pool, '
         'extending / sharing a prefix with / being a prefix of a real name, or registered for real later): the refused-only names are mentioned in full, by prefix, as '
